@@ -428,6 +428,13 @@ fn canary() -> usize {
     outcomes.len()
 }
 
+/// The item-level tree (bound 0) of every world of the pinned tree is finished in seconds. A tree under test that opens more
+/// regions, or whose folds bring split choice points, can make it astronomically larger: the workers then stop at this wall
+/// budget (quick 90 s, thorough 1500 s per world), the cap is reported and the run is not called exhaustive.
+fn bound0_budget() -> Option<u64> {
+    Some(std::env::var("VERIF_SCHED0_BUDGET_MS").ok().and_then(|v| v.parse().ok()).unwrap_or(if is_thorough() { 1_500_000 } else { 90_000 }))
+}
+
 /// One world: baseline per callback (schedule [] twice, compared with the model as a note), then EVERY schedule reachable with
 /// at most `pbound` pre-emptions inside item closures (0 = closures atomic: the pure item-level schedule tree), split over
 /// worker processes. Returns the number of operations on intercepted std::sync primitives met (0 on code whose closures
@@ -631,7 +638,7 @@ fn explore_world(rep: &mut Report, root: &Path, exe: &Path, tag: &str, w: &World
         wsum.insert(cb.clone(), json!({"schedules_in_subtrees": n, "distinct_execution_orders": orders, "distinct_outcomes": outs.len().max(1)}));
     }
     if capped {
-        rep.caps_hit.push(format!("{} '{}', pre-emption bound {}: wall budget of {} ms reached; the schedules covered are a DFS prefix of the bounded tree (bound {} was completed before)", w.coin, w.name, pbound, budget_ms.unwrap_or(0), pbound.saturating_sub(1)));
+        rep.caps_hit.push(format!("{} '{}', pre-emption bound {}: wall budget of {} ms reached; the schedules covered are a DFS prefix of the bounded tree ({})", w.coin, w.name, pbound, budget_ms.unwrap_or(0), if pbound == 0 { "the item-level tree itself was NOT completed".to_string() } else { format!("bound {} was completed before", pbound - 1) }));
     }
     if pbound == 0 {
         *total_pred += predicted * cbs.len() as f64;
@@ -717,25 +724,42 @@ fn sync_canaries() -> Result<(u64, Vec<usize>), String> {
         use rayon::iter::ParallelIterator;
         sched::set_preemption_bound(0);
         let (mut bad_merge, mut good_merge): (BTreeSet<u32>, BTreeSet<u32>) = (BTreeSet::new(), BTreeSet::new());
-        let mut stack: Vec<Vec<usize>> = vec![vec![]];
-        while let Some(prefix) = stack.pop() {
-            let (v, oc) = sched::run(&prefix, || {
-                let firsts = |overwrite: bool| vec![7u32, 8, 9].into_par_iter().fold(|| None, |acc: Option<u32>, x| acc.or(Some(x))).reduce(|| None, move |l, r| if overwrite { r.or(l) } else { l.or(r) }).unwrap_or(0);
-                (firsts(true), firsts(false))
-            });
-            n += 1;
-            if let Some(d) = oc.diverged {
-                return Err(format!("fold canary: replay diverged: {}", d));
-            }
-            bad_merge.insert(v.0);
-            good_merge.insert(v.1);
-            for i in prefix.len()..oc.choices.len() {
-                for alt in 1..oc.choices[i].1 {
-                    let mut p: Vec<usize> = oc.choices[..i].iter().map(|c| c.0).collect();
-                    p.push(alt);
-                    stack.push(p);
+        let (mut leaky_states, mut clean_states): (BTreeSet<Vec<usize>>, BTreeSet<Vec<usize>>) = (BTreeSet::new(), BTreeSet::new());
+        // one exploration per canary body (their product would be the product of their trees)
+        for which in 0..4usize {
+            let mut stack: Vec<Vec<usize>> = vec![vec![]];
+            while let Some(prefix) = stack.pop() {
+                let (v, oc) = sched::run(&prefix, || {
+                    let firsts = |overwrite: bool| vec![7u32, 8, 9].into_par_iter().fold(|| None, |acc: Option<u32>, x| acc.or(Some(x))).reduce(|| None, move |l, r| if overwrite { r.or(l) } else { l.or(r) }).unwrap_or(0);
+                    match which {
+                        0 => (firsts(true), vec![]),
+                        1 => (firsts(false), vec![]),
+                        // a scratch state that is not reset between items: what the second item of a run sees depends on the split
+                        2 => (0, vec![1usize, 2, 3].into_par_iter().map_with(Vec::<usize>::new(), |seen, x| { seen.push(x); seen.len() }).collect()),
+                        _ => (0, vec![1usize, 2, 3].into_par_iter().map_with(Vec::<usize>::new(), |seen, x| { seen.clear(); seen.push(x); seen.len() }).collect()),
+                    }
+                });
+                n += 1;
+                if let Some(d) = oc.diverged {
+                    return Err(format!("split canary {}: replay diverged: {}", which, d));
+                }
+                match which {
+                    0 => { bad_merge.insert(v.0); }
+                    1 => { good_merge.insert(v.0); }
+                    2 => { leaky_states.insert(v.1); }
+                    _ => { clean_states.insert(v.1); }
+                }
+                for i in prefix.len()..oc.choices.len() {
+                    for alt in 1..oc.choices[i].1 {
+                        let mut p: Vec<usize> = oc.choices[..i].iter().map(|c| c.0).collect();
+                        p.push(alt);
+                        stack.push(p);
+                    }
                 }
             }
+        }
+        if leaky_states.len() != 4 || clean_states.len() != 1 {
+            return Err(format!("map_with canary: a state that leaks between the items of a run gave {:?} (expected the four splits of three items), a state that is reset gave {:?} (expected one result)", leaky_states, clean_states));
         }
         if bad_merge != [7u32, 8, 9].into_iter().collect() || good_merge != [7u32].into_iter().collect() {
             return Err(format!("fold canary: overwriting merge gave {:?} (expected 7, 8 and 9 over the splits), proper merge gave {:?} (expected 7 only)", bad_merge, good_merge));
@@ -796,7 +820,7 @@ fn sync_part(rep: &mut Report, root: &Path, exe: &Path, sync_seen_at_bound_0: u6
     // do these worlds meet synchronisation at all? (bound 0 on them is part of the answer and cheap: 6 + 280 schedules)
     let mut seen = sync_seen_at_bound_0;
     for (i, w) in worlds.iter().enumerate() {
-        seen += explore_world(rep, root, exe, &format!("sync{}b0", i), w, &cbs, 0, None, bound, &mut total);
+        seen += explore_world(rep, root, exe, &format!("sync{}b0", i), w, &cbs, 0, bound0_budget(), bound, &mut total);
     }
     rep.count("sync_points_met_in_the_small_worlds_at_bound_0", seen - sync_seen_at_bound_0);
     if seen == 0 {
@@ -859,7 +883,7 @@ fn c13() -> Report {
     let mut sync_seen = 0u64;
     let t_phase = std::time::Instant::now();
     for (wi, (w, cbs)) in worlds.iter().enumerate() {
-        sync_seen += explore_world(&mut rep, &root, &exe, &format!("world{}", wi), w, cbs, 0, None, &mut bound, &mut total_pred);
+        sync_seen += explore_world(&mut rep, &root, &exe, &format!("world{}", wi), w, cbs, 0, bound0_budget(), &mut bound, &mut total_pred);
     }
     rep.count("wall_ms_item_level_trees", t_phase.elapsed().as_millis() as u64);
     let t_phase = std::time::Instant::now();
